@@ -1101,10 +1101,9 @@ func Retract(vm *VM, t Term, k Cont, env *Env) *Promise {
 		return Error(permissionError(operationModify, permissionTypeStaticProcedure, pi.Term(), env))
 	}
 
-	deleted := 0
 	ks := make([]func(context.Context) *Promise, len(u.clauses))
 	for i, c := range u.clauses {
-		i := i
+		c := c
 		// Unify with a renamed copy like clause/2 does. Otherwise, we'd bind the variables of the stored clause,
 		// which it may share with the term it was asserted from.
 		cp, err := renamedCopy(c.raw, nil, env)
@@ -1114,9 +1113,14 @@ func Retract(vm *VM, t Term, k Cont, env *Env) *Promise {
 		raw := rulify(cp, env)
 		ks[i] = func(_ context.Context) *Promise {
 			return Unify(vm, t, raw, func(env *Env) *Promise {
-				j := i - deleted
-				u.clauses, u.clauses[len(u.clauses)-1] = append(u.clauses[:j], u.clauses[j+1:]...), clause{}
-				deleted++
+				// Remove exactly the clause we unified with, if it's still there. We can't rely on its position at the time
+				// of the call: other clauses may have been asserted or retracted before we get here on backtracking.
+				for j := range u.clauses {
+					if u.clauses[j].is(&c) {
+						u.clauses = append(u.clauses[:j:j], u.clauses[j+1:]...)
+						break
+					}
+				}
 				return k(env)
 			}, env)
 		}
